@@ -224,8 +224,49 @@ def member(rng, short=None):
     return "1 U.S. 1"
 
 
+_punct_page = {}
+
+
+def punct_page_member(rng, short=True):
+    """A member of a pattern whose page may contain punctuation ('BCA at 12,345', '1982-1 Trade Cas. at
+    64,689', page-with-letter and 'NY Slip Op 51797(U)' templates), found by probing every pattern."""
+    from vmon.rxgen import sample
+    key = bool(short)
+    if key not in _punct_page:
+        found = []
+        r0 = __import__("random").Random(12345)
+        for e in DB.cit_extractors:
+            if bool(e.extra["short"]) != key or not (e.regex.startswith(PRE) and e.regex.endswith(POST)):
+                continue
+            body = e.regex[len(PRE):-len(POST)]
+            try:
+                rx = re.compile(body, e.flags)
+                core = sample(body, r0, e.flags, maxrep=2)
+            except Exception:
+                continue
+            m = rx.fullmatch(core)
+            if not m or "page" not in rx.groupindex or m.span("page") == (-1, -1):
+                continue
+            a, b = m.span("page")
+            for probe in ("12,345", "1.23", "12a", "51797(U)", "12-34"):
+                m2 = rx.fullmatch(core[:a] + probe + core[b:])
+                if m2 and m2.group("page") == probe:
+                    found.append((e, core[:a], core[b:], probe))
+        _punct_page[key] = found
+    if not _punct_page[key]:
+        return member(rng, short)
+    e, pre, post, probe = rng.choice(_punct_page[key])
+    page = {"12,345": f"{rng.randint(1, 99)},{rng.randint(100, 999)}", "1.23": f"{rng.randint(1, 9)}.{rng.randint(10, 99)}",
+            "12a": f"{rng.randint(1, 999)}{rng.choice('abA')}", "51797(U)": f"{rng.randint(1, 99999)}({rng.choice('UA')})",
+            "12-34": f"{rng.randint(1, 99)}-{rng.randint(1, 99)}"}[probe]
+    return pre + page + post
+
+
 def frag(rng):
     r = rng.random()
+    if r < 0.02:
+        m = punct_page_member(rng, short=rng.random() < 0.5)
+        return rng.choice(["", name(rng) + ", "]) + m + rng.choice([" because", " and again", ".", "; see", ", 7", " (holding x)", ". Id. at 3"])
     if r < 0.06:
         m = member(rng)
         return rng.choice(["", name(rng) + " v. " + name(rng) + ", ", name(rng) + ", "]) + m + rng.choice(
